@@ -1226,6 +1226,23 @@ M('C20', 'preload queues a second load for a key in flight (round-4 seed a)', CA
   "        if key in self._waiting_for_load or key in self._loaded:\n            return\n", "        if key in self._loaded:\n            return\n",
   'TS-no-duplicate-load')
 
+M('C15', 'svd_theta reads chi_max with default None before truncate() (round-4 seed a)', TR,
+  "    piv, new_norm, err = truncate(S, trunc_par)\n    new_len_S = np.sum(piv, dtype=np.int_)\n    if new_len_S * 100 < len(S) and (trunc_par['chi_max'] is None or new_len_S != trunc_par['chi_max']):",
+  "    chi_max = trunc_par.get('chi_max', None)\n    piv, new_norm, err = truncate(S, trunc_par)\n    new_len_S = np.sum(piv, dtype=np.int_)\n    if new_len_S * 100 < len(S) and (chi_max is None or new_len_S != chi_max):",
+  'OPTION-default-first')
+M('C15', 'svd_theta reads chi_max with truncate()s own default before truncate() (twin)', TR,
+  "    piv, new_norm, err = truncate(S, trunc_par)\n    new_len_S = np.sum(piv, dtype=np.int_)\n    if new_len_S * 100 < len(S) and (trunc_par['chi_max'] is None or new_len_S != trunc_par['chi_max']):",
+  "    chi_max = trunc_par.get('chi_max', 100)\n    piv, new_norm, err = truncate(S, trunc_par)\n    new_len_S = np.sum(piv, dtype=np.int_)\n    if new_len_S * 100 < len(S) and (chi_max is None or new_len_S != chi_max):",
+  None, expect='silent')
+M('C15', 'svd_theta reads chi_max with default None after truncate() (twin)', TR,
+  "    new_len_S = np.sum(piv, dtype=np.int_)\n    if new_len_S * 100 < len(S) and (trunc_par['chi_max'] is None or new_len_S != trunc_par['chi_max']):",
+  "    new_len_S = np.sum(piv, dtype=np.int_)\n    chi_max = trunc_par.get('chi_max', None)\n    if new_len_S * 100 < len(S) and (chi_max is None or new_len_S != chi_max):",
+  None, expect='silent')
+M('C15', 'Sweep.sweep no longer stores an explicit chi_max after reading it with default None', 'tenpy/algorithms/mps_common.py',
+  "                logger.info('Setting chi_max for env sweeps=%d', chi_max)\n                self.trunc_params['chi_max'] = chi_max\n",
+  "                logger.info('Setting chi_max for env sweeps=%d', chi_max)\n",
+  'OPTION-default-first')
+
 # ---------------------------------------------------------------- C16 / C19
 M('C16', 'GMRES restart: relative residual norm used for normalisation (round-3 seed b)', KRY,
   """        self.total_error.append([npc.norm(self.rs[-1]) / self.b_norm])
